@@ -3,23 +3,23 @@
 import json
 CLAIMED = {
  "C01": ("TLA+ L0/L1/L2 refinement by exhaustive TLC at scaled constants + trace validation of real Generator runs against L1 at real constants", "5 C01"),
- "C03": ("exhaustive TLC over all chunkings/update forms at scaled constants + trace validation of real call histories", "5 C03"),
- "C12": ("exhaustive TLC with size hint / reset (POISON semantics) at scaled constants + trace validation of histories with declarations and resets", "5 C12"),
+ "C03": ("exhaustive TLC over all chunkings/update forms at scaled constants + trace validation of real call histories, incl. histories TLC generates from GenGenerator.tla replayed on the code", "5 C03"),
+ "C12": ("exhaustive TLC with size hint / reset (POISON semantics) at scaled constants + trace validation of histories with declarations and resets, incl. histories TLC generates from GenGenerator.tla (declarations aimed at the abstract state) replayed on the code", "5 C12"),
  "C13": ("TLC lemma ZerosState at real constants + trace validation of hook-positioned generators at every block size border up to 192 GiB", "5 C13"),
 
  "C02": ("declarative fuzzy_compare in TLA+ (Compare.tla); laws + bit-parallel kernels model-checked on complete small domains; trace validation of every comparison entry point on recorded pairs", "5 C02"),
  "C08": ("exhaustive TLC: Hyyro recurrence (with column invariant) = textbook LCS DP for all string pairs up to the word width; trace validation of real edit_distance calls incl. exhaustive small alphabets", "5 C08"),
  "C09": ("exhaustive TLC: backward scan machine = 'share WIN consecutive symbols' for all pairs; trace validation with a 7-gram planted at every offset pair", "5 C09"),
  "C10": ("score / candidate / window laws as TLC-checked theorems on complete small domains; trace validation of scores, candidates and windows on recorded pairs with the laws re-checked on recorded values", "5 C10"),
- "C17": ("exhaustive TLC over all re-initialisation histories of a scaled position array; trace validation of real init_from/From/clear histories incl. all 64 masks", "5 C17"),
+ "C17": ("exhaustive TLC over all re-initialisation histories of a scaled position array; trace validation of real init_from/From/clear histories incl. all 64 masks, and of behaviours TLC generates from GenTarget.tla replayed on a real target / position array", "5 C17"),
  "C20": ("complete finite domains dumped from the implementation and judged row by row by TLC against the TLA+ definitions", "5 C20"),
 
  "C04": ("declarative grammar in TLA+ (Text.tla Parse) as oracle; TLC round-trip lemmas; trace validation of all six parsers on exhaustive short texts, structured capacity-border texts and mutations", "5 C04"),
  "C05": ("Format/LenInStr/Parse in TLA+; TLC round-trip lemma on a complete small domain; trace validation of every formatter and buffer length, and text->object->text on accepted texts", "5 C05"),
  "C06": ("declarative Normalize in TLA+; exhaustive TLC agreement of the implementation-shaped run collapsing routes (MCDual); trace validation of 16 normalisation routes on systematic run layouts", "5 C06"),
  "C07": ("RLE encoding spec (Dual.tla): exhaustive TLC that both encoder routes are canonical, valid, lossless and injective on the scaled domain; trace validation of 7 construction routes per raw hash", "5 C07"),
- "C11": ("abstract slot machine in TLA+ (TraceObj EvOp/EvCtor): trace validation of object histories with dirty destinations and of constructor contracts, representation observed by is_valid/full_eq/Debug after every step", "5 C11"),
- "C15": ("abstract slot machine in TLA+: every recorded conversion chain must leave the value the direct conversion gives; narrowing failure leaves the destination unchanged", "5 C15"),
+ "C11": ("abstract slot machine in TLA+ (TraceObj EvOp/EvCtor): trace validation of object histories with dirty destinations and of constructor contracts, representation observed by is_valid/full_eq/Debug after every step; both directions: driver-invented histories and behaviours TLC generates from GenObj.tla replayed on real objects", "5 C11"),
+ "C15": ("abstract slot machine in TLA+: every recorded conversion chain must leave the value the direct conversion gives; narrowing failure leaves the destination unchanged; both directions (GenObj.tla behaviours replayed on real objects)", "5 C15"),
  "C16": ("documented order in TLA+ (Order.tla); exhaustive TLC that it is a strict total order and equals the implementation's padded-array comparison; trace validation of ==/cmp/Hash/sort on a complete small domain and dual families", "5 C16"),
 
  "C18": ("reader loop as a TLA+ machine model-checked against a declarative outcome (all short-read / fault / EOF behaviours, scaled buffer); trace validation of hash_stream on scripted readers and hash_file on real files, hashes judged by L1", "5 C18"),
